@@ -11,7 +11,11 @@ EXPLANATION = ("Static MIR rules over crate mla: (R03.1) for every call site of 
                "decrypt_unauthenticated / load_in_cache_unauthenticated / read_internal_unauthenticated out of the normal reader; "
                "(R03.3) every AesGcm256::new in layers::encrypt takes its nonce from build_nonce(prefix field, counter field|0) and "
                "every chunk load is dominated by a store to the counter field; (R03.4) the footer is deserialised from the layered "
-               "source built under the ENCRYPT test and list/get read names and offsets from self.metadata only. "
+               "source built under the ENCRYPT test and list/get read names and offsets from self.metadata only; build_nonce puts the 8-byte archive prefix and the 4 "
+               "low-order bytes of the chunk counter in disjoint ranges of the nonce (injective in the chunk number); (R03.5) error discipline: for every call site "
+               "(exactly resolved, or through a fn pointer of the type a member was reified to) of a function that may return AuthenticatedDecryptionWrongTag, no "
+               "Ok(..) result is reachable on the wrong-tag-consistent paths from its Err edge, so an altered chunk is never skipped; references to the "
+               "unauthenticated functions through fn pointers count as calls for the allowlist of R03.2. "
                "Decides the structural clause, not the runtime behaviour.")
 TRUSTED = ['rustc MIR construction and callee resolution', 'subtle::ConstantTimeEq', 'RustCrypto aes/ctr/ghash', 'std::io']
 ASSUMPTIONS = ['GHASH/CTR compute the standard tag (numeric; not decided)', 'dependencies are not analysed']
